@@ -159,6 +159,15 @@ func libraryStreams(rng *rand.Rand, n int, maxLen int) []baseStream {
 			out = append(out, baseStream{"lzma", fmt.Sprintf("lib-lzma/mode%d/%s", mode, name), buf.Bytes(), data, 0})
 		}
 	}
+	// the empty content in the two modes that announce size 0 (with and without end marker)
+	for _, marker := range []bool{false, true} {
+		var buf bytes.Buffer
+		if w, err := (lzma.WriterConfig{SizeInHeader: true, Size: 0, EOSMarker: marker}).NewWriter(&buf); err == nil {
+			if w.Close() == nil {
+				out = append(out, baseStream{"lzma", fmt.Sprintf("lib-lzma/size0/marker=%v", marker), append([]byte{}, buf.Bytes()...), nil, 0})
+			}
+		}
+	}
 	return out
 }
 
